@@ -127,6 +127,27 @@ def per_state(spec, seq, w):
                         fp = f"duality|unknown={un}|filter={fn}|{'a=b' if a == b else 'a!=b'}"
                         viols.append((fp, {"seq": [list(o) for o in seq], "space": _plain(spec),
                                            "case": ["dual", a, b, un, fn]}))
+    # the same table again with neighbour caching ON, twice over (the second pass reads whatever the first
+    # one -- including its calls that raised -- left in the memos), on a re-built world
+    w2, _ = engine_g.build(spec, seq, validate=False)
+    Vertex.NEIGHBOR_CACHING = True
+    try:
+        for npass in (1, 2):
+            for vi in range(len(w2.v)):
+                for dn in DIRS:
+                    for un in UNKS:
+                        for fn in FILTERS:
+                            evals += 1
+                            nontriv += bool(w2.v[vi].links)
+                            bad = judge_one(w2, vi, dn, un, fn)
+                            if bad:
+                                kinds = {oracles.link_kind(l) for l in w2.v[vi].links}
+                                fp = (f"neighbors|dir={dn}|unknown={un}|filter={fn}|linkkinds={''.join(sorted(kinds))}|{bad}"
+                                      f"|caching-on-pass-{npass}")
+                                viols.append((fp, {"seq": [list(o) for o in seq], "space": _plain(spec),
+                                                   "case": ["nbc", vi, dn, un, fn, npass]}))
+    finally:
+        Vertex.NEIGHBOR_CACHING = False
     return evals, nontriv, viols, outcomes
 
 
@@ -144,6 +165,24 @@ def replay(rec, verbose=False):
         from ..structure import observe
         print("  graph ops:", seq)
         print("  structure:", observe(w)["lv"], observe(w)["cl"], "well-formed:", ok)
+    if case[0] == "nbc":
+        # the whole cached table up to (and including) the recorded call, in the explorer's order
+        _, tvi, tdn, tun, tfn, tpass = case
+        Vertex.NEIGHBOR_CACHING = True
+        try:
+            for npass in (1, 2):
+                for vi in range(len(w.v)):
+                    for dn in DIRS:
+                        for un in UNKS:
+                            for fn in FILTERS:
+                                bad = judge_one(w, vi, dn, un, fn)
+                                if (vi, dn, un, fn, npass) == (tvi, tdn, tun, tfn, tpass):
+                                    if verbose:
+                                        print(f"  caching on, pass {npass}: neighbors(v{vi}, {dn}, {un}, filter={fn}) ->", bad)
+                                    return bad is not None
+        finally:
+            Vertex.NEIGHBOR_CACHING = False
+        return False
     if case[0] == "nb":
         _, vi, dn, un, fn = case
         bad = judge_one(w, vi, dn, un, fn)
@@ -184,7 +223,8 @@ def run(tier, seed, log):
         "unknown modes x 5 filters vs the decision-table oracle, plus forward/backward duality for 2 unknown "
         "modes x 3 filters x all ordered vertex pairs; non-trivial = the queried vertex has a link "
         "(duality: the pair is joined in one of the two answers)")
-    rep.assumptions = ["caching off; ends are vertices (no half-assigned edges)",
+    rep.assumptions = ["main table with caching off; the table is repeated twice with caching on (memos left by "
+                       "earlier calls, including calls that raised, are read by later ones); ends are vertices",
                        "ERROR mode: when the filter rejects every unknown-class link at v, raising and not "
                        "raising are both accepted"]
     return rep.finish(confirm=replay)
